@@ -192,7 +192,9 @@ def shard_single(rec: Recorder, specs: List[Spec], spec_indices: List[int], spec
                 long_combos.append((n, rng.choice(widths)))
             long_lengths = {n for n, _ in long_combos}
             short = [c for c in combos if c[0] not in long_lengths]
-            combos = (short[:2] if len(n_values) > 1 else short[:1]) + long_combos
+            # ... and always the 16-bit length (n = 4 hexes / 16 bits: sizes computed with #(4n) or #n change there)
+            sixteen = [c for c in short if c[0] in (4, 16)][:1]
+            combos = ([c for c in short if c not in sixteen][:2] if len(n_values) > 1 else short[:1]) + sixteen + long_combos
         for n, w in combos:
             app = None
             if hidden:
